@@ -13,7 +13,7 @@ import (
 
 // cliExplore explores one scenario and folds the result into the shard result.
 func cliExplore(c *Ctx, prop string, sc cliScenario, pre int, shardInside bool, tag string) {
-	opt := explore.Options{Preemptions: pre, EnvDevs: 2, Deadline: c.Deadline}
+	opt := explore.Options{Preemptions: pre, EnvDevs: 2, Deadline: c.Deadline, KnownKeys: knownKeys()}
 	if shardInside {
 		opt.Shard, opt.NShards = c.Shard, c.NShards
 	}
